@@ -1,6 +1,6 @@
 (* C17 - The fee multiplier moves only by the bounded, specified step per block.
    Pinned statements only; proofs in STF/Proofs/FeeMult.v and STF/Proofs/Frame.v. *)
-From MelVerif Require Import STF.Model STF.Proofs.FeeMult STF.Proofs.Frame.
+From MelVerif Require Import STF.Model STF.Proofs.FeeMult STF.Proofs.Frame STF.Proofs.SealCounts STF.Proofs.History STF.Proofs.MiscHistory.
 Open Scope N_scope.
 
 (* sealing: without a proposer action the multiplier is unchanged; with one it is the step function below
@@ -43,3 +43,16 @@ Example C17_example :
   move_fee_multiplier true 1000000 127 = 1007750 /\ move_fee_multiplier true 1 (-128) = 0
   /\ move_fee_multiplier true (2 ^ 70) 127 = 2 ^ 70 + 2 ^ 63 * 127 / 128.
 Proof. vm_compute. auto. Qed.
+
+(* over whole histories ([hstep]: Properties/C20.v): every step of every history leaves the multiplier alone - a batch,
+   accepted or refused, a block sealed without an action, a seal that fails - except a block sealed with a proposer
+   action, which moves it by exactly the step function *)
+Theorem C17_only_the_proposer_step_moves_it : forall SO s o,
+  s_fee_mult (hstep SO s o) =
+  match o with
+  | HBlock (Some act) hdr =>
+      match seal SO s (Some act) with Ok _ => move_fee_multiplier (tip_901 s) (s_fee_mult s) (a_delta act) | _ => s_fee_mult s end
+  | _ => s_fee_mult s
+  end.
+Proof. exact hstep_fee_mult. Qed.
+Print Assumptions C17_only_the_proposer_step_moves_it.
